@@ -16,7 +16,7 @@ import export_schema
 from core import MachineryError
 
 STATIC = ["MinDocAccepted", "ChildNamedAfterClass", "FoundByTag", "NoDuplicateTags", "GroupsWellFormed",
-          "GroupsInForce", "ListChildrenAdjacent", "ListElementsInElementList"]
+          "GroupsInForce", "ListRunsTellMembersApart", "ListElementsInElementList"]
 
 
 def sample(types, tid):
@@ -127,6 +127,39 @@ def run(ctx):
                               "what": "to_etree failed for %s: %r" % (label, ex)})
             nprobe += 1
             ctx.nontrivial.add(label)
+    # classes with several repeated children: one member of each, and every optional child declared between the first
+    # and the last of them, all at once (list children need not be adjacent: members are written run by run)
+    for cls in sorted(schema):
+        attrs = schema[cls]["attrs"]
+        li = [i for i, a in enumerate(attrs) if a["k"] in ("lagg", "lelem")]
+        if len(li) < 2:
+            continue
+        node = copy.deepcopy(mins[cls])
+        for a in attrs[li[0]:li[-1] + 1]:
+            if a["k"] == "unsup" or a["tag"] in [k[0] for k in node[2]] and a["k"] not in ("lagg", "lelem"):
+                continue
+            if any(a["a"] in g and any(x != a["a"] and next((y for y in attrs if y["a"] == x), {"tag": None})["tag"] in [k[0] for k in node[2]]
+                                         for x in g) for g in schema[cls]["om"] + schema[cls]["rm"]):
+                continue
+            try:
+                node = add_child(node, cls, a, schema, types, mins)
+            except Exception:
+                continue
+        doc = dc.from_nested(node)
+        label = "%s.<all-list-children>" % cls
+        e = dc.ev_doc("q%d" % nprobe, doc, schema, route="etree", label=label, expect="")
+        evs.append(e)
+        if e["out"]["ok"]:
+            from ofxtools.models.base import Aggregate
+            inst = Aggregate.from_etree(dc.to_etree(doc))
+            try:
+                doc2 = dc.etree_to_doc(inst.to_etree())
+                evs.append(dc.ev_doc("q%dw" % nprobe, doc2, schema, route="etree", label=label + " rewritten", expect="accept",
+                                     twin=e["out"]["inst"]))
+            except Exception as ex:
+                ctx.fail({"clause": "probe-write", "class": cls, "child": "<all-list-children>", "what": "to_etree failed for %s: %r" % (label, ex)})
+        nprobe += 1
+        ctx.nontrivial.add(label)
     ctx.extra["children_probed"] = nprobe
     ctx.exhaustive = True
     ctx.evaluations = len(evs)
